@@ -912,7 +912,7 @@ BOUND_D = 'rows <= 3, columns <= 3, delimiters {",", TAB, ";"} (+ "|" and from_d
 
 
 def run_delimited(repo, task):
-    rep = Report('C16-delimited', task, rule=RULE_D, bound=BOUND_D)
+    rep = Report('C16-delimited', task, rule=RULE_D + ' Added: for a third of the passing cases the same content is exported from a FrameGO that held only the first column, had its column cache read, and was then grown column by column.', bound=BOUND_D)
     for case in rep.shard(cases_delimited(task.get('tier', 'quick'))):
         eval_delimited(rep, case)
     return rep.done()
